@@ -267,6 +267,13 @@ pub fn run_c02(o: &Opts) {
       srcs.push(s0.replace('\n', "\r\n"));
       out.count("source:crlf-variant");
     }
+    // the small committed files hold special shapes (e.g. HTML elements whose raw text is empty): always included
+    for f in corpus::committed(lang) {
+      if f.len() < 600 && !srcs.contains(&f) {
+        srcs.push(f);
+        out.count("source:small-committed-file");
+      }
+    }
     for src in &srcs {
       let sg = corpus::parse(lang, src);
       let nodes: Vec<N> = corpus::all_nodes(sg.root())
@@ -277,6 +284,9 @@ pub fn run_c02(o: &Opts) {
       if nodes.is_empty() {
         continue;
       }
+      // nodes with a zero-width descendant that the parser did not invent (not `missing`): e.g. the raw text of an
+      // empty <script></script>; the pattern parsed from the node's text has it too
+      let zero_w: Vec<N> = nodes.iter().filter(|n| subtree_size(n) <= 120 && n.children().count() >= 2 && n.dfs().skip(1).any(|d| d.range().is_empty() && !d.get_ts_node().is_missing())).cloned().collect();
       // nodes whose text has a multi-byte character in front of a named descendant: a hole behind non-ASCII text
       let wide: Vec<N> = nodes.iter().filter(|n| !n.text().is_ascii() && n.children().count() >= 2 && subtree_size(n) <= 120).cloned().collect();
       // lists that keep a dangling separator before their closer (`f(a, b, c,)`): a trailing run cut from them is
@@ -290,6 +300,26 @@ pub fn run_c02(o: &Opts) {
         nodes.iter().filter(|n| n.children().count() >= 2 && subtree_size(n) <= 120 && n.dfs().any(|d| d.is_leaf() && d.text().ends_with('\r'))).cloned().collect()
       } else { vec![] };
       for k in 0..per_src {
+        if k % 3 == 2 && !zero_w.is_empty() {
+          let t = rng.pick(&zero_w).clone();
+          out.count("node:has-a-visible-zero-width-descendant");
+          let text = t.text().to_string();
+          if let Ok(Ok(p0)) = catch_unwind(AssertUnwindSafe(|| Pattern::try_new(&text, lang))) {
+            if parses_to_same_shape(lang, &text, &t) {
+              out.checked();
+              for si in 0..5 {
+                let p = p0.clone().with_strictness(strict_of(si));
+                tie_match(&mut out, &p, &t, &format!("c02-zw lang={lang} strictness={} pattern={:?}", STRICT_NAMES[si], text));
+                if p.match_node(t.clone()).is_none() {
+                  out.oracle_fail("", &format!("{lang} [{}]: the text {:?} parses to exactly the node's shape (a zero-width node included), yet as a pattern it does not match the node it was copied from", STRICT_NAMES[si], text),
+                    json!({"stream": "c02-self", "lang": lang.to_string(), "strictness": STRICT_NAMES[si], "pattern": text, "code": t.text()}));
+                  break;
+                }
+              }
+            }
+          }
+          continue;
+        }
         if k % 3 == 1 && !cr_leaf.is_empty() {
           // the node's own text as pattern
           let t = rng.pick(&cr_leaf).clone();
